@@ -135,6 +135,11 @@ def fixed_cases():
             yield {'v': node, 'width': w, 'ribbon': w, 'indent': 4}
             yield {'v': ['list', [['cmt', 'on the container', node], ['int', 0]]], 'width': w, 'ribbon': w, 'indent': 4}
             yield {'v': ['dict', [[['str', 'k'], ['cmt', 'as a dict value', node]]]], 'width': w, 'ribbon': w, 'indent': 2, 'sort': True}
+    # comment lines that begin with whitespace and end in a word
+    for text in (' lead word', '   two words', 'first\n  indented last', '\tx y'):
+        for w in (79, 8):
+            yield {'v': ['list', [['cmt', text, ['int', 1]], ['tcmt', text, ['list', [['int', 2]]]]]], 'width': w, 'ribbon': w, 'indent': 4}
+            yield {'v': ['dict', [[['cmt', text, ['str', 'k']], ['cmt', text, ['int', 1]]]]], 'width': w, 'ribbon': w, 'indent': 4}
     # a struct sequence (sole tuple argument, hugged) carrying a trailing comment
     for w in (79, 15):
         yield {'v': ['tcmt', 'checked by hand', ['call', 'tsize', [['int', 80], ['int', 24]], []]], 'width': w, 'ribbon': w, 'indent': 4}
